@@ -213,6 +213,14 @@ class Inventory:
                 self.stats["sem"] = self.stats.get("sem", 0) + 1
                 return
             # not clean: fall through to the generic inventory so that the individual sites are reported as well
+        if f.path == "msg::message::MessageBuilder::build_message":
+            import builder
+            sem = builder.build_semantics(prog)
+            if not sem["undecided"] and not [1 for c, t_ in sem["problems"] if c == "panic"]:
+                self.res.ob("P-sem", "build | every Assert terminator, index and slice operation of build_message is decided on every abstract path", True,
+                            "buildsem: %d paths" % sem["paths"], f.loc)
+                self.stats["sem"] = self.stats.get("sem", 0) + 1
+                return
         if f.path == "message_frame::MessageFrame::new":
             # decided by abstract interpretation (framesem): every Assert terminator, index and slice operation is evaluated on
             # every abstract path; a clean run means none can fail
